@@ -5,7 +5,9 @@ import PsModel.Lemmas.C16
 `Model/C16.lean` mirrors `state.py` and the dotted-name routing of `eval.py`; `Spec/C16.lean` is the dictionary
 the property statement describes (functions `Ent → Option (value, attrs)`).  The theorems say that every entry
 point commutes with the abstraction `absStore` for **all** stores, arguments and operation sequences – on the
-fragment `Conf`; the four `_cex` theorems exhibit what happens outside it (recorded findings C16-F1…F4).
+fragment `Conf fx`, where `fx : Fixes` are the repairs the code contains (`Fixes.current` is read off the source on
+every run, `Fixes.preFix` is the code before the `fix:` commits).  With all repairs in, only finding C16-F2 is left
+outside the fragment (`C16_assign_stateval_cex`); the `_regress` theorems keep the old counterexamples for `preFix`.
 -/
 namespace PsModel.C16
 open PsModel.Gen
@@ -48,31 +50,53 @@ theorem C16_get_errors (env : Env) (st : Store) (d n a : String) :
 
 /-- **Assigning `DOMAIN.name = v`** (v an ordinary non-`None` value, the head not shadowed by a Python variable):
 the value becomes `str(v)`, the attributes are kept, nothing else changes. -/
-theorem C16_assign_keeps_attrs (env : Env) (hs : SimpleEnv env) (hok : EnvOK env) (st : Store) (d n : String) (v : Val)
+theorem C16_assign_keeps_attrs (fx : Fixes) (env : Env) (hs : SimpleEnv env) (hok : EnvOK env) (st : Store) (d n : String) (v : Val)
     (hh : pyVarSrc env d = none) :
-    absStore (storeDotted env st [d, n] (.plain v)).1
+    absStore (storeDotted fx env st [d, n] (.plain v)).1
       = fupd (absStore st) (d, n) (some ⟨v.str, attrsOf (absStore st) (d, n)⟩) ∧
-    (storeDotted env st [d, n] (.plain v)).2 = .unit := by
+    (storeDotted fx env st [d, n] (.plain v)).2 = .unit := by
+  have hne : (Arg.plain v == Arg.none) = false := by simp
   simp only [storeDotted, head_defined env hs hok, hh, Option.isSome_none, Bool.false_eq_true, if_false,
-    List.length_cons, List.length_nil, ASSIGN_DOTS_SET, stateSet, ↓reduceIte, and_true]
+    List.length_cons, List.length_nil, ASSIGN_DOTS_SET, stateSet, ↓reduceIte, and_true, hne, Bool.and_false]
   rw [setCore_abs]
   simp [setRule, argStr?, svAttrs, merge]
 
-/-- **Assigning `DOMAIN.name.attr = v` / `state.setattr`** (attr not a parameter name of `State.set`): `NameError`
-and no change when the entity is missing; otherwise exactly that attribute changes – value, other attributes and
-other entities are untouched. -/
-theorem C16_attr_assign_only_that (env : Env) (st : Store) (d n a : String) (v : Val) (hr : reserved a = false) :
-    (aget (d, n) st = none → stateSetattr env st [d, n, a] v = (st, .exc "NameError")) ∧
+/-- **Assigning `DOMAIN.name = None`** (with the repair of `recurse_assign`): like any other assignment – the value
+becomes `"None"`, the attributes are kept. -/
+theorem C16_assign_none_sets_value (fx : Fixes) (hf : fx.assignNone = true) (env : Env) (hs : SimpleEnv env)
+    (hok : EnvOK env) (st : Store) (d n : String) (hh : pyVarSrc env d = none) :
+    absStore (storeDotted fx env st [d, n] .none).1
+      = fupd (absStore st) (d, n) (some ⟨"None", attrsOf (absStore st) (d, n)⟩) ∧
+    (storeDotted fx env st [d, n] .none).2 = .unit := by
+  simp only [storeDotted, head_defined env hs hok, hh, Option.isSome_none, Bool.false_eq_true, if_false,
+    List.length_cons, List.length_nil, ASSIGN_DOTS_SET, stateSet, ↓reduceIte, and_true, hf, Bool.true_and,
+    beq_self_eq_true]
+  rw [setCore_abs]
+  simp [setRule, argStr?, svAttrs, merge, noneStr]
+
+/-- **Assigning `DOMAIN.name.attr = v` / `state.setattr`** – for **every** attribute name once `State.setattr` builds the
+attribute dictionary itself (`fx.setattrDict`); before that repair only for names that are not parameters of
+`State.set`: `NameError` and no change when the entity is missing; otherwise exactly that attribute changes – value,
+other attributes and other entities are untouched. -/
+theorem C16_attr_assign_only_that (fx : Fixes) (env : Env) (st : Store) (d n a : String) (v : Val)
+    (hr : fx.setattrDict = true ∨ reserved a = false) :
+    (aget (d, n) st = none → stateSetattr fx env st [d, n, a] v = (st, .exc "NameError")) ∧
     (∀ r, aget (d, n) st = some r →
-      (stateSetattr env st [d, n, a] v).2 = .unit ∧
-      ∀ e, aget e (stateSetattr env st [d, n, a] v).1 =
+      (stateSetattr fx env st [d, n, a] v).2 = .unit ∧
+      ∀ e, aget e (stateSetattr fx env st [d, n, a] v).1 =
         if e = (d, n) then some ⟨r.value, aset a v r.attrs⟩ else aget e st) := by
-  have hr' : STATE_SET_PARAMS.contains a = false := hr
-  refine ⟨fun h => by simp [stateSetattr, stateExist, h], fun r h => ?_⟩
-  simp only [stateSetattr, stateExist, h, Option.isSome_some, Bool.not_true, Bool.false_eq_true, if_false, hr',
-    Bool.not_false, if_true, true_and]
-  intro e
-  simp [setCore, aget_aset, argStr?, svAttrs, fetchOld, h, keepValue, keepAttrs, mergeKw, dupdate]
+  refine ⟨fun h => by simp [stateSetattr, h], fun r h => ?_⟩
+  by_cases hf : fx.setattrDict = true
+  · simp only [stateSetattr, h, hf, if_true, true_and]
+    intro e
+    simp [setCore, aget_aset, argStr?, svAttrs, fetchOld, h, keepValue, keepAttrs, mergeKw]
+  · have hc : STATE_SET_PARAMS.contains a = false := by
+      rcases hr with h' | h'
+      · exact absurd h' hf
+      · exact h'
+    simp only [stateSetattr, h, hf, Bool.false_eq_true, if_false, hc, Bool.not_false, if_true, true_and]
+    intro e
+    simp [setCore, aget_aset, argStr?, svAttrs, fetchOld, h, keepValue, keepAttrs, mergeKw, dupdate]
 
 /-- **`state.set(name, v, new_attributes=d)`** replaces all attributes (then merges the keywords). -/
 theorem C16_set_new_attrs_replace (st : Store) (d n : String) (v : Val) (na kw : Attrs) :
@@ -106,34 +130,34 @@ theorem C16_set_stateval (st : Store) (e : Ent) (s : Snap) (kw : Attrs) :
   simp [setRule, argStr?, svAttrs, abs_snapAttrs]
 
 /-- **One step refines the dictionary rules** (`Conf` operations; all stores, all captured snapshots). -/
-theorem C16_step_refines (env : Env) (hs : SimpleEnv env) (hok : EnvOK env) (ms : MState) (op : Op)
-    (hc : Conf env op = true) :
-    absState (step env ms op).1 = (Spec.step env (absState ms) op).1 ∧
-      absOut (step env ms op).2 = (Spec.step env (absState ms) op).2 :=
-  step_refines env hs hok ms op hc
+theorem C16_step_refines (fx : Fixes) (env : Env) (hs : SimpleEnv env) (hok : EnvOK env) (ms : MState) (op : Op)
+    (hc : Conf fx env op = true) :
+    absState (step fx env ms op).1 = (Spec.step env (absState ms) op).1 ∧
+      absOut (step fx env ms op).2 = (Spec.step env (absState ms) op).2 :=
+  step_refines fx env hs hok ms op hc
 
 /-- **Refinement over all operation sequences** (read / assign / attribute-assign / `state.set` in every argument
 combination / delete / exist / getattr / names, interleaved with external `async_set`/`async_remove`):
 after every step the store denotes the spec's dictionary and the script saw the spec's value or exception class.
 Partial: operations outside `Conf` are the recorded findings (`_cex` theorems below). -/
-theorem C16_refinement_partial (env : Env) (hs : SimpleEnv env) (hok : EnvOK env) (ops : List Op)
-    (hc : ∀ op ∈ ops, Conf env op = true) (ms : MState) :
-    absState (run env ms ops).1 = (Spec.run env (absState ms) ops).1 ∧
-      (run env ms ops).2.map absOut = (Spec.run env (absState ms) ops).2 := by
+theorem C16_refinement_partial (fx : Fixes) (env : Env) (hs : SimpleEnv env) (hok : EnvOK env) (ops : List Op)
+    (hc : ∀ op ∈ ops, Conf fx env op = true) (ms : MState) :
+    absState (run fx env ms ops).1 = (Spec.run env (absState ms) ops).1 ∧
+      (run fx env ms ops).2.map absOut = (Spec.run env (absState ms) ops).2 := by
   induction ops generalizing ms with
   | nil => simp [run, Spec.run]
   | cons op ops ih =>
-    obtain ⟨h1, h2⟩ := step_refines env hs hok ms op (hc op (by simp))
-    obtain ⟨i1, i2⟩ := ih (fun o ho => hc o (by simp [ho])) (step env ms op).1
+    obtain ⟨h1, h2⟩ := step_refines fx env hs hok ms op (hc op (by simp))
+    obtain ⟨i1, i2⟩ := ih (fun o ho => hc o (by simp [ho])) (step fx env ms op).1
     simp only [run, Spec.run, List.map_cons]
     rw [← h1, ← h2]
     exact ⟨i1, by rw [i2]⟩
 
 /-- **delete / exist / names / getattr / get agree with the state machine after every operation sequence**: whatever
 conforming history produced the store, each observer returns what the dictionary spec returns on the spec's store. -/
-theorem C16_observers_agree (env : Env) (hs : SimpleEnv env) (hok : EnvOK env) (ops : List Op)
-    (hc : ∀ op ∈ ops, Conf env op = true) (ms : MState) (parts : List String) (dom : Option String) :
-    let m := (run env ms ops).1
+theorem C16_observers_agree (fx : Fixes) (env : Env) (hs : SimpleEnv env) (hok : EnvOK env) (ops : List Op)
+    (hc : ∀ op ∈ ops, Conf fx env op = true) (ms : MState) (parts : List String) (dom : Option String) :
+    let m := (run fx env ms ops).1
     let s := (Spec.run env (absState ms) ops).1
     stateExist env m.store parts = Spec.exist env s.store parts ∧
     absOut (stateGetattr m.store parts) = Spec.getattr s.store parts ∧
@@ -141,22 +165,22 @@ theorem C16_observers_agree (env : Env) (hs : SimpleEnv env) (hok : EnvOK env) (
     absOut (stateGet env m.store parts) = Spec.get env s.store parts ∧
     (absStore (stateDelete m.store parts).1, absOut (stateDelete m.store parts).2) = Spec.delete s.store parts := by
   intro m s
-  have h : absState m = s := (C16_refinement_partial env hs hok ops hc ms).1
+  have h : absState m = s := (C16_refinement_partial fx env hs hok ops hc ms).1
   have hst : s.store = absStore m.store := by rw [← h]; rfl
   rw [hst]
   exact ⟨stateExist_abs env _ _, stateGetattr_abs _ _, stateNames_abs _ _, stateGet_abs env _ _, stateDelete_abs _ _⟩
 
 /-- `state.names` never lists an entity twice: entity ids stay distinct along every operation sequence. -/
-theorem C16_names_nodup (env : Env) (ops : List Op) (ms : MState) (h : (ms.store.map (·.1)).Nodup)
-    (dom : Option String) : (stateNames (run env ms ops).1.store dom).Nodup := by
+theorem C16_names_nodup (fx : Fixes) (env : Env) (ops : List Op) (ms : MState) (h : (ms.store.map (·.1)).Nodup)
+    (dom : Option String) : (stateNames (run fx env ms ops).1.store dom).Nodup := by
   have step_nodup : ∀ (ms : MState) (op : Op), (ms.store.map (·.1)).Nodup →
-      ((step env ms op).1.store.map (·.1)).Nodup := by
+      ((step fx env ms op).1.store.map (·.1)).Nodup := by
     intro ms op h
     have hset : ∀ parts a na kw, ((stateSet ms.store parts a na kw).1.map (·.1)).Nodup := by
       intro parts a na kw
       rcases parts with _ | ⟨d, _ | ⟨n, _ | ⟨x, r⟩⟩⟩ <;> simp only [stateSet] <;> try exact h
       exact keys_nodup_aset _ _ _ h
-    have hsa : ∀ parts v, ((stateSetattr env ms.store parts v).1.map (·.1)).Nodup := by
+    have hsa : ∀ parts v, ((stateSetattr fx env ms.store parts v).1.map (·.1)).Nodup := by
       intro parts v
       rcases parts with _ | ⟨d, _ | ⟨n, _ | ⟨x, _ | ⟨y, r⟩⟩⟩⟩ <;> simp only [stateSetattr] <;> try exact h
       split
@@ -165,7 +189,9 @@ theorem C16_names_nodup (env : Env) (ops : List Op) (ms : MState) (h : (ms.store
         · exact keys_nodup_aset _ _ _ h
         · split
           · exact keys_nodup_aset _ _ _ h
-          · split <;> exact h
+          · split
+            · exact keys_nodup_aset _ _ _ h
+            · split <;> exact h
     have hdel : ∀ parts, ((stateDelete ms.store parts).1.map (·.1)).Nodup := by
       intro parts
       rcases parts with _ | ⟨d, _ | ⟨n, _ | ⟨x, _ | ⟨y, r⟩⟩⟩⟩ <;> simp only [stateDelete] <;> try exact h
@@ -218,7 +244,7 @@ theorem C16_names_nodup (env : Env) (ops : List Op) (ms : MState) (h : (ms.store
     | extSet e value attrs => exact keys_nodup_aset _ _ _ h
     | extRemove e => exact keys_nodup_adel _ _ h
   have run_nodup : ∀ (ops : List Op) (ms : MState), (ms.store.map (·.1)).Nodup →
-      ((run env ms ops).1.store.map (·.1)).Nodup := by
+      ((run fx env ms ops).1.store.map (·.1)).Nodup := by
     intro ops
     induction ops with
     | nil => intro ms h; exact h
@@ -227,10 +253,10 @@ theorem C16_names_nodup (env : Env) (ops : List Op) (ms : MState) (h : (ms.store
 
 /-- **A captured snapshot never changes afterwards**: whatever operations follow (by the script or from outside),
 looking at snapshot `i` again shows exactly what was captured. -/
-theorem C16_snapshot_immutable (env : Env) (ops : List Op) (ms : MState) (i : Nat) (s : Snap)
+theorem C16_snapshot_immutable (fx : Fixes) (env : Env) (ops : List Op) (ms : MState) (i : Nat) (s : Snap)
     (h : ms.snaps[i]? = some s) :
-    (run env ms ops).1.snaps[i]? = some s ∧ (step env (run env ms ops).1 (.peek i)).2 = .sv s := by
-  have step_keeps : ∀ (ms : MState) (op : Op), ms.snaps[i]? = some s → (step env ms op).1.snaps[i]? = some s := by
+    (run fx env ms ops).1.snaps[i]? = some s ∧ (step fx env (run fx env ms ops).1 (.peek i)).2 = .sv s := by
+  have step_keeps : ∀ (ms : MState) (op : Op), ms.snaps[i]? = some s → (step fx env ms op).1.snaps[i]? = some s := by
     intro ms op h
     have hcap : ∀ o, (capture ms o).snaps[i]? = some s := by
       intro o
@@ -246,7 +272,7 @@ theorem C16_snapshot_immutable (env : Env) (ops : List Op) (ms : MState) (i : Na
     | getattrSnap j => simp only [step]; cases ms.snaps[j]? <;> exact h
     | peek j => simp only [step]; cases ms.snaps[j]? <;> exact h
     | _ => exact h
-  have run_keeps : ∀ (ops : List Op) (ms : MState), ms.snaps[i]? = some s → (run env ms ops).1.snaps[i]? = some s := by
+  have run_keeps : ∀ (ops : List Op) (ms : MState), ms.snaps[i]? = some s → (run fx env ms ops).1.snaps[i]? = some s := by
     intro ops
     induction ops with
     | nil => intro ms h; exact h
@@ -256,20 +282,22 @@ theorem C16_snapshot_immutable (env : Env) (ops : List Op) (ms : MState) (i : Na
 
 /-- **Resolution priority**: a Python variable named like the head (local > per-context function > global > builtin >
 the order of `Gen.NAME_LOOKUP_ORDER`) wins over services and states, both for reading and for
-assigning; an existing function/service name `d.n` wins over the state variable `d.n`; otherwise the state machine
-answers. -/
-theorem C16_priority (env : Env) (hs : SimpleEnv env) (hok : EnvOK env) (st : Store) (d n : String) :
+assigning – and, with the repair of `ast_delete`, for `del` –; an existing function/service name `d.n` wins over the
+state variable `d.n`; otherwise the state machine answers. -/
+theorem C16_priority (fx : Fixes) (env : Env) (hs : SimpleEnv env) (hok : EnvOK env) (st : Store) (d n : String) :
     (∀ x, getattrOut (astNameLoad env st [d]) x =
         match pyVarSrc env d with | some src => .py src | none => .exc "NameError") ∧
     (∀ src, pyVarSrc env d = some src →
         loadDotted env st [d, n] = .py src ∧ (∀ a, loadDotted env st [d, n, a] = .py src) ∧
-        (∀ v, storeDotted env st [d, n] v = (st, .py "setattr")) ∧
-        (∀ a v, storeDotted env st [d, n, a] v = (st, .py "setattr"))) ∧
+        (∀ v, storeDotted fx env st [d, n] v = (st, .py "setattr")) ∧
+        (∀ a v, storeDotted fx env st [d, n, a] v = (st, .py "setattr")) ∧
+        (fx.delPyAttr = true → ∀ rest, delDotted fx env st (d :: n :: rest) = (st, .py "delattr"))) ∧
     (pyVarSrc env d = none → callableName env d n = true → loadDotted env st [d, n] = .callable) ∧
     (pyVarSrc env d = none → callableName env d n = false →
         loadDotted env st [d, n] = stateGet env st [d, n] ∧
         ∀ a, loadDotted env st [d, n, a] = stateGet env st [d, n, a]) := by
-  refine ⟨fun x => head_getattr env hs hok st d x, fun src h => ⟨?_, fun a => ?_, fun v => ?_, fun a v => ?_⟩,
+  refine ⟨fun x => head_getattr env hs hok st d x, fun src h => ⟨?_, fun a => ?_, fun v => ?_, fun a v => ?_,
+      fun hf rest => by simp [delDotted, head_defined env hs hok, h, hf]⟩,
     fun h hc => ?_, fun h hc => ⟨?_, fun a => ?_⟩⟩
   · rw [loadDotted_two env hs hok]; simp [h]
   · rw [loadDotted_three env hs hok st d n a (Or.inl (by simp [h]))]; simp [h]
@@ -279,33 +307,42 @@ theorem C16_priority (env : Env) (hs : SimpleEnv env) (hok : EnvOK env) (st : St
   · rw [loadDotted_two env hs hok]; simp [h, hc]
   · rw [loadDotted_three env hs hok st d n a (Or.inr hc)]; simp [h]
 
-/-! ## where the code leaves the rules today (recorded findings) -/
+/-! ## the repairs, and where the code still leaves the rules -/
+
+/-- **The working tree contains all three repairs** (`Fixes.current` is extracted from `recurse_assign`, `State.setattr`
+and `ast_delete` on every run; undoing one of the repairs in the source makes this theorem fail). -/
+theorem C16_fixes_current : Fixes.current = ⟨true, true, true⟩ := by decide
+
+/-- with all repairs in, the fragment is `ConfNow`: everything except finding F2 and the unmodelled shapes -/
+theorem C16_conf_current (fx : Fixes) (hf : fx = ⟨true, true, true⟩) (env : Env) (op : Op) :
+    Conf fx env op = ConfNow env op := by
+  subst hf
+  cases op with
+  | store parts v =>
+    rcases parts with _ | ⟨d, _ | ⟨n, _ | ⟨a, _ | ⟨b, r⟩⟩⟩⟩ <;> simp only [Conf, ConfNow]
+    · cases v <;> simp
+    · cases v <;> simp
+  | delStmt parts => rcases parts with _ | ⟨d, _ | ⟨n, r⟩⟩ <;> simp [Conf, ConfNow]
+  | setattr parts v => rcases parts with _ | ⟨d, _ | ⟨n, _ | ⟨a, _ | ⟨b, r⟩⟩⟩⟩ <;> simp [Conf, ConfNow]
+  | _ => rfl
+
+/-- **Refinement for the code as it is now**: every operation sequence that stays clear of finding F2 (no `StateVal`
+value whose attributes would be kept) refines the dictionary rules – `None` values, attributes named like `State.set`
+parameters and `del obj.attr` on Python variables included. -/
+theorem C16_refinement_current (env : Env) (hs : SimpleEnv env) (hok : EnvOK env) (ops : List Op)
+    (hc : ∀ op ∈ ops, ConfNow env op = true) (ms : MState) :
+    absState (run Fixes.current env ms ops).1 = (Spec.run env (absState ms) ops).1 ∧
+      (run Fixes.current env ms ops).2.map absOut = (Spec.run env (absState ms) ops).2 :=
+  C16_refinement_partial Fixes.current env hs hok ops
+    (fun op ho => by rw [C16_conf_current _ C16_fixes_current]; exact hc op ho) ms
 
 def cexStore : Store := [(("pyscript", "x"), ⟨"5", [("a", ⟨"1", "1"⟩)]⟩), (("pyscript", "y"), ⟨"7", [("b", ⟨"2", "2"⟩)]⟩)]
 
-/-- **F1 (design #27)** `pyscript.x = None` on an existing entity: the code keeps `"5"`, the rule says `"None"`. -/
-theorem C16_assign_none_cex :
-    (aget ("pyscript", "x") (step {} ⟨cexStore, []⟩ (.store ["pyscript", "x"] .none)).1.store).map (·.value) = some "5" ∧
-    ((Spec.step {} (absState ⟨cexStore, []⟩) (.store ["pyscript", "x"] .none)).1.store ("pyscript", "x")).map (·.value)
-      = some "None" := by
-  constructor
-  · decide
-  · rfl
-
-/-- F1, the exact good half: on a *missing* entity `d.n = None` does what an assignment should (stores `"None"`). -/
-theorem C16_assign_none_partial (env : Env) (hs : SimpleEnv env) (hok : EnvOK env) (st : Store) (d n : String)
-    (hh : pyVarSrc env d = none) (hm : aget (d, n) st = none) :
-    absStore (storeDotted env st [d, n] .none).1 = setRule (absStore st) (d, n) (some "None") none [] := by
-  simp only [storeDotted, head_defined env hs hok, hh, Option.isSome_none, Bool.false_eq_true, if_false,
-    List.length_cons, List.length_nil, ASSIGN_DOTS_SET, stateSet, ↓reduceIte]
-  rw [setCore_abs]
-  simp [setRule, argStr?, svAttrs, valueOf, absStore_apply, hm]
-
-/-- **F2** `pyscript.y = pyscript.x` (a StateVal): the rule keeps `y`'s attribute `b`; the code replaces the
+/-- **F2 (open)** `pyscript.y = pyscript.x` (a StateVal): the rule keeps `y`'s attribute `b`; the code replaces the
 attributes by the snapshot's (`b` is gone, `a` appears). -/
 theorem C16_assign_stateval_cex :
-    let ms1 := (step {} ⟨cexStore, []⟩ (.load ["pyscript", "x"])).1
-    (aget ("pyscript", "y") (step {} ms1 (.store ["pyscript", "y"] (.snap 0))).1.store).map (·.attrs)
+    let ms1 := (step Fixes.current {} ⟨cexStore, []⟩ (.load ["pyscript", "x"])).1
+    (aget ("pyscript", "y") (step Fixes.current {} ms1 (.store ["pyscript", "y"] (.snap 0))).1.store).map (·.attrs)
       = some [("a", ⟨"1", "1"⟩)] ∧
     ((Spec.step {} (absState ms1) (.store ["pyscript", "y"] (.snap 0))).1.store ("pyscript", "y")).map
       (fun r => (r.value, r.attrs "a", r.attrs "b")) = some ("5", none, some ⟨"2", "2"⟩) := by
@@ -313,27 +350,38 @@ theorem C16_assign_stateval_cex :
   · decide
   · rfl
 
-/-- **F3** `pyscript.x.value = 9`: the rule changes only the attribute `value`; the code sets the *state* to `"9"`
-and creates no attribute (the keyword binds the parameter `value` of `State.set`). -/
-theorem C16_attr_reserved_cex :
-    aget ("pyscript", "x") (step {} ⟨cexStore, []⟩ (.store ["pyscript", "x", "value"] (.plain ⟨"9", "9"⟩))).1.store
+/-- **F1 (design #27) – regression witness**: before the repair `pyscript.x = None` on an existing entity kept `"5"`
+(the rule says `"None"`); with the repair the store holds `"None"`. -/
+theorem C16_assign_none_regress :
+    (aget ("pyscript", "x") (step Fixes.preFix {} ⟨cexStore, []⟩ (.store ["pyscript", "x"] .none)).1.store).map (·.value)
+      = some "5" ∧
+    (aget ("pyscript", "x") (step Fixes.current {} ⟨cexStore, []⟩ (.store ["pyscript", "x"] .none)).1.store).map (·.value)
+      = some "None" ∧
+    ((Spec.step {} (absState ⟨cexStore, []⟩) (.store ["pyscript", "x"] .none)).1.store ("pyscript", "x")).map (·.value)
+      = some "None" := by
+  refine ⟨by decide, by decide, rfl⟩
+
+/-- **F3 – regression witness**: before the repair `pyscript.x.value = 9` set the *state* to `"9"` and created no
+attribute; now the attribute `value` is set and the state stays `"5"`, as the rule says. -/
+theorem C16_attr_reserved_regress :
+    aget ("pyscript", "x") (step Fixes.preFix {} ⟨cexStore, []⟩ (.store ["pyscript", "x", "value"] (.plain ⟨"9", "9"⟩))).1.store
       = some ⟨"9", [("a", ⟨"1", "1"⟩)]⟩ ∧
+    aget ("pyscript", "x") (step Fixes.current {} ⟨cexStore, []⟩ (.store ["pyscript", "x", "value"] (.plain ⟨"9", "9"⟩))).1.store
+      = some ⟨"5", [("a", ⟨"1", "1"⟩), ("value", ⟨"9", "9"⟩)]⟩ ∧
     ((Spec.step {} (absState ⟨cexStore, []⟩) (.store ["pyscript", "x", "value"] (.plain ⟨"9", "9"⟩))).1.store
       ("pyscript", "x")).map (fun r => (r.value, r.attrs "value")) = some ("5", some ⟨"9", "9"⟩) := by
-  constructor
-  · decide
-  · rfl
+  refine ⟨by decide, by decide, rfl⟩
 
-/-- **F4** `del obj.attr` where `obj` is a local Python variable: Python deletes the object's attribute; the code
-sends the dotted name to `State.delete` and raises `NameError`. -/
-theorem C16_del_pyvar_cex :
-    (step { sym := [["obj"]] } ⟨cexStore, []⟩ (.delStmt ["obj", "attr"])).2 = .exc "NameError" ∧
+/-- **F4 – regression witness**: before the repair `del obj.attr` on a local Python variable went to `State.delete` and
+raised `NameError`; now it is Python's `delattr`. -/
+theorem C16_del_pyvar_regress :
+    (step Fixes.preFix { sym := [["obj"]] } ⟨cexStore, []⟩ (.delStmt ["obj", "attr"])).2 = .exc "NameError" ∧
+    (step Fixes.current { sym := [["obj"]] } ⟨cexStore, []⟩ (.delStmt ["obj", "attr"])).2 = .py "delattr" ∧
     (match (Spec.step { sym := [["obj"]] } (absState ⟨cexStore, []⟩) (.delStmt ["obj", "attr"])).2 with
      | .py _ => True
      | _ => False) := by
-  constructor
-  · decide
-  · simp [Spec.step, Spec.delStmt, Spec.withStore, pyVarSrc]
+  refine ⟨by decide, by decide, ?_⟩
+  simp [Spec.step, Spec.delStmt, Spec.withStore, pyVarSrc]
 
 /-! ## non-vacuity -/
 
@@ -349,16 +397,19 @@ example : SimpleEnv exEnv ∧ EnvOK exEnv := by
   · intro id h; simp [exEnv] at h
   · intro id h; simp [exEnv] at h
 
-/-- a conforming sequence touching every entry point, run by the model -/
+/-- a sequence inside `ConfNow` touching every entry point – `None` assignment, an attribute named `value` and a `del`
+on a Python variable included – run by the model of the current code -/
 example :
     let ops : List Op :=
       [.extSet ("pyscript", "x") "5" [("a", ⟨"1", "1"⟩)], .load ["pyscript", "x"], .store ["pyscript", "y"] (.plain ⟨"7", "7"⟩),
        .store ["pyscript", "y", "b"] (.plain ⟨"2", "2"⟩), .set ["pyscript", "y"] .none (some []) [("c", ⟨"3", "3"⟩)],
        .set ["pyscript", "z"] (.snap 0) (some []) [], .delStmt ["pyscript", "x", "a"], .delete ["pyscript", "x"],
        .exist ["pyscript", "y", "c"], .getattr ["pyscript", "y"], .names (some "pyscript"), .peek 0,
-       .load ["sensor", "x"], .load ["pyscript", "step"], .extRemove ("pyscript", "z")]
-    (∀ op ∈ ops, Conf exEnv op = true) ∧
-    (run exEnv ⟨[], []⟩ ops).1.store = [(("pyscript", "y"), ⟨"7", [("c", ⟨"3", "3"⟩)]⟩)] := by
+       .load ["sensor", "x"], .load ["pyscript", "step"], .extRemove ("pyscript", "z"),
+       .store ["pyscript", "y"] .none, .store ["pyscript", "y", "value"] (.plain ⟨"9", "9"⟩), .delStmt ["sensor", "x"]]
+    (∀ op ∈ ops, ConfNow exEnv op = true) ∧
+    (run Fixes.current exEnv ⟨[], []⟩ ops).1.store
+      = [(("pyscript", "y"), ⟨"None", [("c", ⟨"3", "3"⟩), ("value", ⟨"9", "9"⟩)]⟩)] := by
   decide
 
 end PsModel.C16
